@@ -287,6 +287,30 @@ def shard(s):
             verdict = consume(text, 1, {"kind": "text", "depth": 1})
             if verdict == ACCEPT:
                 acc.nontrivial += 1
+    elif kind == "headers":
+        # what the header line says is free text: a family of header styles (database prefixes, PIR-like codes, punctuation,
+        # numbers, residue-like words) over the same two-line record; and a sequence whose 3-residue groups all read as
+        # three-letter amino-acid codes, written with every group size 1..12 per blank-separated token
+        seq = SEQ61[:50]
+        heads = [">sp|P1|X_HUMAN", ">gi|12345|ref|NP_1.1|", ">P1;CRAB_ANAPL", ">F1;x", ">XX;anything", ">DL;d", ">N1;n", ">RC;r", ">1", ">;", ">>", "> ",
+                 ">MKVLA", ">ALA GLY SER", ">seq 1 len=50", ">a*b", ">tab\there", ">P1", ">p1;lower", ">ACGT", ">*", ">12 KA"]
+        for h in heads:
+            for body in (seq[:30] + "\n" + seq[30:] + "\n", seq + "\n", "\n" + seq[:10] + " " + seq[10:20] + "\n" + seq[20:] + "*\n"):
+                verdict = consume(h + "\n" + body, 1, {"kind": "text", "depth": 1})
+                if verdict == ACCEPT:
+                    acc.nontrivial += 1
+        codes = ["MET", "SER", "THR", "LYS", "ALA", "GLY", "VAL", "HIS", "ASP", "ASN", "ARG", "GLN", "ILE", "PHE", "TRP", "TYR", "CYS", "MET", "LYS", "SER"]
+        wordseq = "".join(codes)
+        for g in range(1, 13):
+            toks = [wordseq[i:i + g] for i in range(0, len(wordseq), g)]
+            for per_line in (1, 2, 4, 100):
+                lines = [" ".join(toks[i:i + per_line]) for i in range(0, len(toks), per_line)]
+                for head in ("", ">words\n"):
+                    verdict = consume(head + "\n".join(lines) + "\n", 1, {"kind": "text", "depth": 1})
+                    if verdict == ACCEPT:
+                        acc.nontrivial += 1
+        for text in ("GLU LYS\n", "ALA GLU\n", ">h\nGLX ASX\n", "PRO GLN GLU\n"):      # tokens with a non-residue letter (U, X, O ...): rejected / judged
+            consume(text, 1, {"kind": "text", "depth": 1})
     elif kind == "paths":
         # how the file is NAMED: the same file through ./, //, dir/../ and a directory symlink followed by .. (which the operating
         # system resolves through the link), relative and absolute, with a decoy of the same name where a textual clean-up would land
@@ -443,6 +467,7 @@ def run(tier, seed, t0):
     shards.append(("bytes",))
     shards.append(("alphabets",))
     shards.append(("paths",))
+    shards.append(("headers",))
     shards.append(("bigtext", (70000, 140000) if tier == "quick" else (66000, 70000, 140000, 300000, 1100000)))
     for n_ in ((11000,) if tier == "quick" else (9000, 12000, 20000, 35000, 70000)):
         shards.insert(0, ("longfiles", (n_,)))
@@ -453,7 +478,7 @@ def run(tier, seed, t0):
         rule="every file text of length 0..%d over %d symbols %r served through an in-memory open(), every structured layout "
              "(header x every line length x 10-residue spacing x numbering x blank lines x trailing newline x stop) of %s, every "
              "single-character substitution by %d characters and 6 insertions at every position of sampled-by-index layouts, and "
-             "%d real temporary files; files of 11000 residues (thorough: to 70000) in four layouts with four endings; files whose text exceeds 64/128 KiB (thorough: 1 MiB) around a 3000-residue sequence (long description line, blank-padded records, thousands of blank lines, CRLF); the silent flag passed by keyword, positionally or left at its default; twelve spellings of file names (./, //, dir/../, a directory symlink followed by .., absolute) through three routes with a decoy where a textual clean-up would land; 30-residue files over every single residue, every pair of residues and nucleotide-/numeral-like sub-alphabets (parser and constructor route); 13 byte strings that are not text in the read encoding (lone continuation / lead bytes, Latin-1 letters, surrogate, overlong) inserted and substituted at every position of the sequence lines of 4 host files (in-memory open honouring the encoding/errors arguments the library passes, and real binary files) must be rejected; reference parser (vmc/refmodel/parser.py) gives must-accept(seq) / must-reject / dont-care; "
+             "%d real temporary files; files of 11000 residues (thorough: to 70000) in four layouts with four endings; files whose text exceeds 64/128 KiB (thorough: 1 MiB) around a 3000-residue sequence (long description line, blank-padded records, thousands of blank lines, CRLF); the silent flag passed by keyword, positionally or left at its default; 22 header styles over three record layouts and a sequence spelt in three-letter-code words under every group size 1..12; twelve spellings of file names (./, //, dir/../, a directory symlink followed by .., absolute) through three routes with a decoy where a textual clean-up would land; 30-residue files over every single residue, every pair of residues and nucleotide-/numeral-like sub-alphabets (parser and constructor route); 13 byte strings that are not text in the read encoding (lone continuation / lead bytes, Latin-1 letters, surrogate, overlong) inserted and substituted at every position of the sequence lines of 4 host files (in-memory open honouring the encoding/errors arguments the library passes, and real binary files) must be rejected; reference parser (vmc/refmodel/parser.py) gives must-accept(seq) / must-reject / dont-care; "
              "accepted files up to length %d are also loaded with SequenceParameters(sequenceFile=...) and compared (sequence, and "
              "a 32-entry API vector up to length %d) with SequenceParameters(seq); non-trivial = accepted files that needed "
              "parsing (line breaks, spaces, digits, stop, header)" % (
